@@ -53,10 +53,12 @@ func ZZ_C15_P3_leader_keeps_the_highest_admissible_lock() {
 	}
 	var best *lib.QuorumCertificate
 	var bestBlock []byte
+	var bestRC uint64
 	if zzBool("leaderHadLock") {
 		b.HighQC = mkLock("own")
 		b.Block = []byte{0xEE}
-		best, bestBlock = b.HighQC, b.Block
+		b.RCBuildHeight = 77
+		best, bestBlock, bestRC = b.HighQC, b.Block, 77
 	}
 	accepted := 0
 	for i := 0; i < n; i++ {
@@ -67,13 +69,14 @@ func ZZ_C15_P3_leader_keeps_the_highest_admissible_lock() {
 			Qc:        &QC{Header: &lib.View{Height: 5, RootHeight: 3, Round: 4, Phase: ElectionVote, NetworkId: 1, ChainId: 1}, ProposerKey: []byte{7}, Block: blk, Results: &lib.CertificateResult{}},
 			HighQc:    lock,
 			Signature: &lib.Signature{PublicKey: zzPub(i), Signature: []byte{byte(i + 1)}},
+			RcBuildHeight: uint64(100 + i),
 		}
 		err := b.AddVote(vote)
 		if zzAdmissible[lock] {
 			zzAssert("P3.admissible-vote-is-counted", err == nil)
 			accepted++
 			if best == nil || zzLess(best.Header, lock.Header) {
-				best, bestBlock = lock, blk
+				best, bestBlock, bestRC = lock, blk, uint64(100+i)
 			}
 		} else {
 			zzAssert("P3.vote-with-inadmissible-lock-is-dropped", err != nil)
@@ -85,6 +88,29 @@ func ZZ_C15_P3_leader_keeps_the_highest_admissible_lock() {
 		zzReach("P3.adopted")
 		zzAssert("P3.leader-holds-the-highest-admissible-lock", b.HighQC == best)
 		zzAssert("P3.block-to-repropose-came-with-that-lock", bytes.Equal(b.Block, bestBlock))
+		zzAssert("P3.root-chain-build-height-came-with-that-lock", b.RCBuildHeight == bestRC)
 	}
 	zzReach("P3.done")
+}
+
+
+// C15 / P6: a round change forgets the failed round's proposal completely. After the real
+// NewRound(false) (what Pacemaker runs) nothing of the previous round's proposal is cached - block,
+// block hash, results, proposer key, sortition data - so the next leader's different block is hashed
+// afresh (GetBlockHash recomputes only when the cache is empty); the lock is NOT touched.
+//
+//zz:harness unwind=60 replay=model
+//zz:reach P6.done
+func ZZ_C15_P6_round_change_forgets_the_failed_proposal() {
+	vs := zzValSet([]uint64{1, 1, 1})
+	lock := zzQC("lock", 3)
+	b := &BFT{View: zzView("cur"), ValidatorSet: vs, Controller: &zzCtl{valSet: vs}, log: zzLog{}, HighQC: lock, RCBuildHeight: 9,
+		Block: []byte{1, 2}, BlockHash: zzBytes("cachedHash", 32), Results: &lib.CertificateResult{}, ProposerKey: []byte{7}, SortitionData: &lib.SortitionData{}}
+	r := b.View.Round
+	zzAssume(r < 1<<40)
+	b.NewRound(false)
+	zzAssert("P6.round-advances-by-one", b.Round == r+1)
+	zzAssert("P6.proposal-caches-cleared", b.Block == nil && b.BlockHash == nil && b.Results == nil && b.ProposerKey == nil && b.SortitionData == nil)
+	zzAssert("P6.lock-untouched", b.HighQC == lock && b.RCBuildHeight == 9)
+	zzReach("P6.done")
 }
